@@ -210,19 +210,16 @@ Definition stmt_of (sh : shell) : parser stmt :=
 Definition body_end (sh : shell) : string :=
   match sh with Fish => "end" | _ => "}" end.
 
-(** is [n] the name of an external-command function ([..._cmd_<digits>])? *)
-Fixpoint ends_cmd_digits (s : string) : bool :=
-  match s with
-  | EmptyString => false
-  | String c t =>
-      match strip "_cmd_" s with
-      | Some r => (let (ds, r') := take_while is_digit r in
-                   match ds, r' with
-                   | String _ _, EmptyString => true
-                   | _, _ => false
-                   end) || ends_cmd_digits t
-      | None => ends_cmd_digits t
-      end
+(** is [n] the name of an external-command function of the command [cmd], i.e. [_<cmd>_cmd_<digits>]?
+    (the command name is the grammar's; the consumer knows it) *)
+Definition is_cmd_fn (cmd n : string) : bool :=
+  match strip (append "_" (append cmd "_cmd_")) n with
+  | Some r => let (ds, r') := take_while is_digit r in
+              match ds, r' with
+              | String _ _, EmptyString => true
+              | _, _ => false
+              end
+  | None => false
   end.
 
 (** the body of a function: the text between the four-space indent after the header and the line
@@ -260,7 +257,7 @@ Definition read_body (sh : shell) (s : string) : option (string * string) :=
   end.
 
 (** the scanner: at a line start, read a statement or skip the line *)
-Fixpoint scan (fuel : nat) (sh : shell) (s : string) : list stmt :=
+Fixpoint scan (fuel : nat) (sh : shell) (cmd : string) (s : string) : list stmt :=
   match fuel with
   | O => []
   | S k =>
@@ -269,16 +266,17 @@ Fixpoint scan (fuel : nat) (sh : shell) (s : string) : list stmt :=
       | _ =>
           match stmt_of sh s with
           | Some (SFunc n, r) =>
-              if ends_cmd_digits n then
+              if is_cmd_fn cmd n then
                 match read_body sh r with
-                | Some (b, r') => SFunc n :: SBody b :: SEnd :: scan k sh r'
-                | None => SFunc n :: scan k sh r
+                | Some (b, r') => SFunc n :: SBody b :: SEnd :: scan k sh cmd r'
+                | None => SFunc n :: scan k sh cmd r
                 end
-              else SFunc n :: scan k sh r
-          | Some (st, r) => st :: scan k sh r
-          | None => let (_, r) := line s in scan k sh r
+              else SFunc n :: scan k sh cmd r
+          | Some (st, r) => st :: scan k sh cmd r
+          | None => let (_, r) := line s in scan k sh cmd r
           end
       end
   end.
 
-Definition read_stmts (sh : shell) (text : string) : list stmt := scan (S (String.length text)) sh text.
+Definition read_stmts (sh : shell) (cmd : string) (text : string) : list stmt :=
+  scan (S (String.length text)) sh cmd text.
